@@ -903,3 +903,75 @@ Proof.
         * eapply res_sat_weaken; [apply ptrlist_at_safe; auto|auto]. }
       destruct (_ =? 0); [apply Hleaf; lia|]. destruct (collect _ _ _); apply Hleaf; lia.
 Qed.
+
+Lemma root_depth c m rl q : 1 <= cfg_D c ->
+  fst (root c m rl) = Ok q -> p_valid q = true -> 0 <= p_depth q <= cfg_D c - 1.
+Proof.
+  intros HD. unfold root. destruct (lookup_segment m 0) as [s0| |]; try discriminate.
+  destruct (negb _); [destruct (cfg_root c); discriminate|].
+  intros H V. pose proof (readPtr_depth (cfg_strict c) m rl 0 s0 0 (depth_limit c) q) as G.
+  rewrite depth_limit_spec in G, H by assumption. specialize (G ltac:(lia) H V). lia.
+Qed.
+
+(* walk_bounded, from any well-formed start pointer: with fuel >= depth budget + 2 the walker
+   never runs out of fuel (its recursion depth is bounded by the depth budget), does not
+   panic, hands out at most its budget, and the number of successful dereferences is at
+   most (budget consumed)/8 + the start object's pointer slots -- on any message, cyclic and
+   aliasing pointer graphs included. *)
+Theorem walk_bounded_from c fx m dcap pcap fuel rl p :
+  msg_ok m -> cfg_strict c = true -> fx_depth fx = true -> fx_bit fx = true ->
+  wf_ptr m p -> 0 <= p_depth p -> p_depth p + 2 <= Z.of_nat fuel -> 0 <= rl ->
+  let a := walkA c fx m dcap pcap fuel rl (Ok p) in
+  (ac_val a, ac_rl a) = walk c fx m dcap pcap fuel rl (Ok p) /\
+  tree_ok (ac_val a) = true /\ tree_nofuel (ac_val a) = true /\
+  0 <= ac_rl a /\ ac_rl a + ac_h a <= rl /\
+  0 <= ac_d a /\ 8 * ac_d a <= (rl - ac_rl a) + 8 * slots p.
+Proof.
+  intros Hm Hc Hfd Hfb Hw Hd Hf Hr a.
+  pose proof (walkA_erase c fx m dcap pcap fuel rl (Ok p)) as He. fold a in He.
+  split; [exact He|].
+  pose proof (walk_safe c fx m dcap pcap Hm Hc Hfb fuel rl (Ok p) Hw) as H1. rewrite <- He in H1.
+  pose proof (walk_fuel c fx m dcap pcap Hfd fuel rl (Ok p)) as H2. rewrite <- He in H2.
+  cbn [fst] in H1, H2.
+  destruct (walk_traversal c fx m dcap pcap fuel rl (Ok p) Hr) as (T1 & T2 & T3). fold a in T1, T2, T3.
+  destruct (walk_derefs c fx m dcap pcap Hm Hc fuel rl (Ok p) Hr Hw) as (D1 & D2 & D3). fold a in D1, D2, D3.
+  cbn [slots_r] in D3.
+  split; [assumption|]. split; [|lia].
+  apply H2. intros p' E V. inversion E; subst p'. split; [assumption|]. left. assumption.
+Qed.
+
+(* walk_bounded for a whole message: Root followed by the walker with fuel D+1 *)
+Theorem walk_bounded c fx m dcap pcap fuel :
+  msg_ok m -> cfg_strict c = true -> cfg_root c = true -> fx_depth fx = true -> fx_bit fx = true ->
+  1 <= cfg_D c -> 0 <= cfg_T c -> cfg_D c + 1 <= Z.of_nat fuel ->
+  let T := init_rlimit c in
+  let r := root c m T in
+  let a := walkA c fx m dcap pcap fuel (snd r) (fst r) in
+  (ac_val a, ac_rl a) = walk c fx m dcap pcap fuel (snd r) (fst r) /\
+  tree_ok (ac_val a) = true /\ tree_nofuel (ac_val a) = true /\
+  0 <= ac_rl a /\
+  deref_size (fst r) + ac_h a <= T /\
+  0 <= deref_count (fst r) + ac_d a <= T / 8 + 1.
+Proof.
+  intros Hm Hc Hrt Hfd Hfb HD HT Hf T r a.
+  pose proof (init_rlimit_nonneg c HT) as H0. fold T in H0.
+  pose proof (walkA_erase c fx m dcap pcap fuel (snd r) (fst r)) as He. fold a in He.
+  split; [exact He|].
+  assert (res_sat (fst r) (wf_ptr m)) as Hw
+    by (eapply res_sat_weaken; [apply root_safe; assumption|auto]).
+  destruct (root_charge c m T H0) as [[C1 C1'] C2]. fold r in C1, C1', C2.
+  pose proof (walk_safe c fx m dcap pcap Hm Hc Hfb fuel (snd r) (fst r) Hw) as H1. rewrite <- He in H1.
+  pose proof (walk_fuel c fx m dcap pcap Hfd fuel (snd r) (fst r)) as H2. rewrite <- He in H2.
+  cbn [fst] in H1, H2.
+  destruct (walk_traversal c fx m dcap pcap fuel (snd r) (fst r) C1) as (T1 & T2 & T3). fold a in T1, T2, T3.
+  destruct (walk_derefs c fx m dcap pcap Hm Hc fuel (snd r) (fst r) C1 Hw) as (D1 & D2 & D3). fold a in D1, D2, D3.
+  split; [assumption|]. split.
+  { apply H2. intros p E V. pose proof (root_depth c m T p HD E V). split; [lia|]. left. lia. }
+  split; [assumption|].
+  unfold deref_size, deref_count, slots_r in *.
+  destruct (fst r) as [q| |] eqn:Eq; cbn [res_sat] in Hw.
+  - pose proof (slots_le_readSize m q Hm Hw). pose proof (readSize_nonneg q).
+    split; [lia|]. destruct (p_valid q); lia.
+  - lia.
+  - destruct Hw.
+Qed.
